@@ -248,6 +248,28 @@ static int dec_expect(const char *site, const char *method, const uint8_t *in, s
 		if (gc != elen || memcmp(out, exp, elen))
 			vf_viol("decoder-input-chunking", "method=%s in=%s: output differs when the input callback delivers its bytes in pieces (mode %d: at most k bytes, or irregular pattern -k) (%zu of %zu bytes)", method, vf_hex(in, n), ck, gc, elen);
 	}
+	/* a caller that probes with zero-length requests (before the first byte and between its reads of 1, 7 and 61 bytes) */
+	if ((VF.index & 3) == 3 && elen > 0) {
+		LHADecoderType *dt = lha_decoder_for_name((char *) method);
+		LHADecoder *d;
+		size_t tot = 0, g, step = 0;
+		static const size_t asks[6] = { 0, 1, 0, 7, 0, 61 };
+		VIN.p = in; VIN.n = n; VIN.pos = 0; VIN.chunk = 0; VIN.calls = VIN.zero_calls = 0;
+		d = dt ? lha_decoder_new(dt, vin_cb, &VIN, elen) : NULL;
+		if (d) {
+			for (;;) {
+				size_t ask = asks[step++ % 6];
+				if (ask > elen + 1 - tot) ask = elen + 1 - tot;
+				g = lha_decoder_read(d, out + tot, ask);
+				if (g > ask) { vf_viol("read-overlong", "method=%s read(%zu) returned %zu", method, ask, g); break; }
+				tot += g;
+				if ((ask > 0 && g == 0) || tot > elen || step > 8 * elen + 64) break;
+			}
+			if (tot != elen || memcmp(out, exp, elen))
+				vf_viol("decoder-zero-length-read", "method=%s in=%s: output differs when zero-length requests are interleaved with the reads (%zu of %zu bytes)", method, vf_hex(in, n), tot, elen);
+			lha_decoder_free(d);
+		}
+	}
 	got = dec_run(method, in, n, elen, out, 0, chunk, &r);
 	int ok = 1;
 	if (!r.created) {
